@@ -63,7 +63,8 @@ Record env := mkEnv {
 }.
 
 (* ---------- struct DBusAuth + DBusAuthServer ---------- *)
-Record auth := mkAuth {
+(* the protocol fields; the handlers work on these only *)
+Record core := mkCore {
   a_state : sstate;
   a_mech : option mech;
   a_identity : bytes;
@@ -75,27 +76,24 @@ Record auth := mkAuth {
   a_asked : bool;
   a_failures : N;
   a_fd_negotiated : bool;
-  a_incoming : bytes;
-  a_outgoing : bytes;
   a_nchal : N
 }.
-Definition set_state (a : auth) (v : sstate) : auth := mkAuth v (a_mech a) (a_identity a) (a_authorized a) (a_desired a) (a_have_keyring a) (a_cookie_id a) (a_challenge a) (a_asked a) (a_failures a) (a_fd_negotiated a) (a_incoming a) (a_outgoing a) (a_nchal a).
-Definition set_mech (a : auth) (v : option mech) : auth := mkAuth (a_state a) v (a_identity a) (a_authorized a) (a_desired a) (a_have_keyring a) (a_cookie_id a) (a_challenge a) (a_asked a) (a_failures a) (a_fd_negotiated a) (a_incoming a) (a_outgoing a) (a_nchal a).
-Definition set_identity (a : auth) (v : bytes) : auth := mkAuth (a_state a) (a_mech a) v (a_authorized a) (a_desired a) (a_have_keyring a) (a_cookie_id a) (a_challenge a) (a_asked a) (a_failures a) (a_fd_negotiated a) (a_incoming a) (a_outgoing a) (a_nchal a).
-Definition set_authorized (a : auth) (v : creds) : auth := mkAuth (a_state a) (a_mech a) (a_identity a) v (a_desired a) (a_have_keyring a) (a_cookie_id a) (a_challenge a) (a_asked a) (a_failures a) (a_fd_negotiated a) (a_incoming a) (a_outgoing a) (a_nchal a).
-Definition set_desired (a : auth) (v : creds) : auth := mkAuth (a_state a) (a_mech a) (a_identity a) (a_authorized a) v (a_have_keyring a) (a_cookie_id a) (a_challenge a) (a_asked a) (a_failures a) (a_fd_negotiated a) (a_incoming a) (a_outgoing a) (a_nchal a).
-Definition set_have_keyring (a : auth) (v : bool) : auth := mkAuth (a_state a) (a_mech a) (a_identity a) (a_authorized a) (a_desired a) v (a_cookie_id a) (a_challenge a) (a_asked a) (a_failures a) (a_fd_negotiated a) (a_incoming a) (a_outgoing a) (a_nchal a).
-Definition set_cookie_id (a : auth) (v : option N) : auth := mkAuth (a_state a) (a_mech a) (a_identity a) (a_authorized a) (a_desired a) (a_have_keyring a) v (a_challenge a) (a_asked a) (a_failures a) (a_fd_negotiated a) (a_incoming a) (a_outgoing a) (a_nchal a).
-Definition set_challenge (a : auth) (v : bytes) : auth := mkAuth (a_state a) (a_mech a) (a_identity a) (a_authorized a) (a_desired a) (a_have_keyring a) (a_cookie_id a) v (a_asked a) (a_failures a) (a_fd_negotiated a) (a_incoming a) (a_outgoing a) (a_nchal a).
-Definition set_asked (a : auth) (v : bool) : auth := mkAuth (a_state a) (a_mech a) (a_identity a) (a_authorized a) (a_desired a) (a_have_keyring a) (a_cookie_id a) (a_challenge a) v (a_failures a) (a_fd_negotiated a) (a_incoming a) (a_outgoing a) (a_nchal a).
-Definition set_failures (a : auth) (v : N) : auth := mkAuth (a_state a) (a_mech a) (a_identity a) (a_authorized a) (a_desired a) (a_have_keyring a) (a_cookie_id a) (a_challenge a) (a_asked a) v (a_fd_negotiated a) (a_incoming a) (a_outgoing a) (a_nchal a).
-Definition set_fd_negotiated (a : auth) (v : bool) : auth := mkAuth (a_state a) (a_mech a) (a_identity a) (a_authorized a) (a_desired a) (a_have_keyring a) (a_cookie_id a) (a_challenge a) (a_asked a) (a_failures a) v (a_incoming a) (a_outgoing a) (a_nchal a).
-Definition set_incoming (a : auth) (v : bytes) : auth := mkAuth (a_state a) (a_mech a) (a_identity a) (a_authorized a) (a_desired a) (a_have_keyring a) (a_cookie_id a) (a_challenge a) (a_asked a) (a_failures a) (a_fd_negotiated a) v (a_outgoing a) (a_nchal a).
-Definition set_outgoing (a : auth) (v : bytes) : auth := mkAuth (a_state a) (a_mech a) (a_identity a) (a_authorized a) (a_desired a) (a_have_keyring a) (a_cookie_id a) (a_challenge a) (a_asked a) (a_failures a) (a_fd_negotiated a) (a_incoming a) v (a_nchal a).
-Definition set_nchal (a : auth) (v : N) : auth := mkAuth (a_state a) (a_mech a) (a_identity a) (a_authorized a) (a_desired a) (a_have_keyring a) (a_cookie_id a) (a_challenge a) (a_asked a) (a_failures a) (a_fd_negotiated a) (a_incoming a) (a_outgoing a) v.
-
-Definition auth_init : auth :=   (* _dbus_auth_server_new *)
-  mkAuth WaitingForAuth None [] creds_empty creds_empty false None [] false 0 false [] [] 0.
+Definition set_state (a : core) (v : sstate) : core := mkCore v (a_mech a) (a_identity a) (a_authorized a) (a_desired a) (a_have_keyring a) (a_cookie_id a) (a_challenge a) (a_asked a) (a_failures a) (a_fd_negotiated a) (a_nchal a).
+Definition set_mech (a : core) (v : option mech) : core := mkCore (a_state a) v (a_identity a) (a_authorized a) (a_desired a) (a_have_keyring a) (a_cookie_id a) (a_challenge a) (a_asked a) (a_failures a) (a_fd_negotiated a) (a_nchal a).
+Definition set_identity (a : core) (v : bytes) : core := mkCore (a_state a) (a_mech a) v (a_authorized a) (a_desired a) (a_have_keyring a) (a_cookie_id a) (a_challenge a) (a_asked a) (a_failures a) (a_fd_negotiated a) (a_nchal a).
+Definition set_authorized (a : core) (v : creds) : core := mkCore (a_state a) (a_mech a) (a_identity a) v (a_desired a) (a_have_keyring a) (a_cookie_id a) (a_challenge a) (a_asked a) (a_failures a) (a_fd_negotiated a) (a_nchal a).
+Definition set_desired (a : core) (v : creds) : core := mkCore (a_state a) (a_mech a) (a_identity a) (a_authorized a) v (a_have_keyring a) (a_cookie_id a) (a_challenge a) (a_asked a) (a_failures a) (a_fd_negotiated a) (a_nchal a).
+Definition set_have_keyring (a : core) (v : bool) : core := mkCore (a_state a) (a_mech a) (a_identity a) (a_authorized a) (a_desired a) v (a_cookie_id a) (a_challenge a) (a_asked a) (a_failures a) (a_fd_negotiated a) (a_nchal a).
+Definition set_cookie_id (a : core) (v : option N) : core := mkCore (a_state a) (a_mech a) (a_identity a) (a_authorized a) (a_desired a) (a_have_keyring a) v (a_challenge a) (a_asked a) (a_failures a) (a_fd_negotiated a) (a_nchal a).
+Definition set_challenge (a : core) (v : bytes) : core := mkCore (a_state a) (a_mech a) (a_identity a) (a_authorized a) (a_desired a) (a_have_keyring a) (a_cookie_id a) v (a_asked a) (a_failures a) (a_fd_negotiated a) (a_nchal a).
+Definition set_asked (a : core) (v : bool) : core := mkCore (a_state a) (a_mech a) (a_identity a) (a_authorized a) (a_desired a) (a_have_keyring a) (a_cookie_id a) (a_challenge a) v (a_failures a) (a_fd_negotiated a) (a_nchal a).
+Definition set_failures (a : core) (v : N) : core := mkCore (a_state a) (a_mech a) (a_identity a) (a_authorized a) (a_desired a) (a_have_keyring a) (a_cookie_id a) (a_challenge a) (a_asked a) v (a_fd_negotiated a) (a_nchal a).
+Definition set_fd_negotiated (a : core) (v : bool) : core := mkCore (a_state a) (a_mech a) (a_identity a) (a_authorized a) (a_desired a) (a_have_keyring a) (a_cookie_id a) (a_challenge a) (a_asked a) (a_failures a) v (a_nchal a).
+Definition set_nchal (a : core) (v : N) : core := mkCore (a_state a) (a_mech a) (a_identity a) (a_authorized a) (a_desired a) (a_have_keyring a) (a_cookie_id a) (a_challenge a) (a_asked a) (a_failures a) (a_fd_negotiated a) v.
+(* the object: protocol fields + DBusAuth.incoming / DBusAuth.outgoing *)
+Record auth := mkAuth { a_core : core; a_incoming : bytes; a_outgoing : bytes }.
+Definition core_init : core := mkCore WaitingForAuth None [] creds_empty creds_empty false None [] false 0 false 0.
+Definition auth_init : auth := mkAuth core_init [] [].   (* _dbus_auth_server_new *)
 
 Inductive resp := R_Rejected | R_Ok | R_Error (msg : bytes) | R_Data (d : bytes) | R_AgreeFd.
 
@@ -226,7 +224,7 @@ Definition render (e : env) (r : resp) : bytes :=
   end.
 
 (* ---------- shutdown_mech / send_* ---------- *)
-Definition shutdown_mech (a : auth) : auth :=
+Definition shutdown_mech (a : core) : core :=
   let a := set_asked a false in
   let a := set_identity a [] in
   let a := set_authorized a creds_empty in
@@ -241,17 +239,17 @@ Definition shutdown_mech (a : auth) : auth :=
       set_mech a None
   end.
 
-Definition send_rejected (a : auth) : auth * list resp :=
+Definition send_rejected (a : core) : core * list resp :=
   let a := shutdown_mech a in
   let a := set_failures a (a_failures a + 1) in
   (set_state a (if max_failures <=? a_failures a then NeedDisconnect else WaitingForAuth), [R_Rejected]).
-Definition send_ok (a : auth) : auth * list resp := (set_state a WaitingForBegin, [R_Ok]).
-Definition send_error (a : auth) (m : bytes) : auth * list resp := (a, [R_Error m]).
+Definition send_ok (a : core) : core * list resp := (set_state a WaitingForBegin, [R_Ok]).
+Definition send_error (a : core) (m : bytes) : core * list resp := (a, [R_Error m]).
 (* an _dbus_assert failed (or a model fault): the process is gone *)
-Definition crash (a : auth) : auth * list resp := (set_state a Crashed, []).
+Definition crash (a : core) : core * list resp := (set_state a Crashed, []).
 
 (* ---------- EXTERNAL: handle_server_data_external_mech ---------- *)
-Definition external_mech (e : env) (a : auth) (data : bytes) : auth * list resp :=
+Definition external_mech (e : env) (a : core) (data : bytes) : core * list resp :=
   if are_anonymous (e_sock e) then send_rejected a
   else if negb (is_empty data) && negb (is_empty (a_identity a)) then send_rejected a
   else
@@ -284,7 +282,7 @@ Definition colon : bytes := [58].
 Definition space : bytes := [32].
 
 (* sha1_handle_first_client_response *)
-Definition sha1_first (e : env) (a : auth) (data : bytes) : auth * list resp :=
+Definition sha1_first (e : env) (a : core) (data : bytes) : core * list resp :=
   let a := set_challenge a [] in
   if negb (is_empty data) && negb (is_empty (a_identity a)) then send_rejected a
   else
@@ -325,7 +323,7 @@ Definition sha1_compute_hash (e : env) (id : N) (server_challenge client_challen
   else hex_encode (sha1 (server_challenge ++ colon ++ client_challenge ++ colon ++ cookie)).
 
 (* sha1_handle_second_client_response *)
-Definition sha1_second (e : env) (a : auth) (id : N) (data : bytes) : auth * list resp :=
+Definition sha1_second (e : env) (a : core) (id : N) (data : bytes) : core * list resp :=
   let '(found, i) := find_blank data in
   if negb found then send_rejected a
   else
@@ -346,15 +344,15 @@ Definition sha1_second (e : env) (a : auth) (id : N) (data : bytes) : auth * lis
     end.
 
 (* handle_server_data_cookie_sha1_mech *)
-Definition cookie_mech (e : env) (a : auth) (data : bytes) : auth * list resp :=
+Definition cookie_mech (e : env) (a : core) (data : bytes) : core * list resp :=
   match a_cookie_id a with
   | None => sha1_first e a data
   | Some id => sha1_second e a id data
   end.
 
 (* ---------- ANONYMOUS: handle_server_data_anonymous_mech ---------- *)
-Definition anonymous_mech (e : env) (a : auth) (data : bytes) : auth * list resp :=
-  let go (a : auth) :=
+Definition anonymous_mech (e : env) (a : core) (data : bytes) : core * list resp :=
+  let go (a : core) :=
     let a := set_desired a creds_empty in
     send_ok (set_authorized a (add_pid_from (a_authorized a) (e_sock e))) in
   if is_empty data then go a
@@ -364,7 +362,7 @@ Definition anonymous_mech (e : env) (a : auth) (data : bytes) : auth * list resp
        | None => crash a            (* model fault of Wire.Utf8 (out of fuel); never happens *)
        end.
 
-Definition mech_data (e : env) (m : mech) (a : auth) (data : bytes) : auth * list resp :=
+Definition mech_data (e : env) (m : mech) (a : core) (data : bytes) : core * list resp :=
   match m with
   | EXTERNAL => external_mech e a data
   | COOKIE_SHA1 => cookie_mech e a data
@@ -372,13 +370,13 @@ Definition mech_data (e : env) (m : mech) (a : auth) (data : bytes) : auth * lis
   end.
 
 (* ---------- process_data ---------- *)
-Definition process_data (e : env) (a : auth) (args : bytes) (m : mech) : auth * list resp :=
+Definition process_data (e : env) (a : core) (args : bytes) (m : mech) : core * list resp :=
   let '(decoded, endi) := hex_decode args in
   if negb (endi =? nlen args) then send_error a msg_invalid_hex
   else mech_data e m a decoded.
 
 (* ---------- handle_auth ---------- *)
-Definition handle_auth (e : env) (a : auth) (args : bytes) : auth * list resp :=
+Definition handle_auth (e : env) (a : core) (args : bytes) : core * list resp :=
   if is_empty args then send_rejected a
   else
     let '(_, i) := find_blank args in
@@ -396,7 +394,7 @@ Definition handle_auth (e : env) (a : auth) (args : bytes) : auth * list resp :=
     end.
 
 (* ---------- the three state handlers: one generated switch each ---------- *)
-Definition run_action (e : env) (a : auth) (act : action) (args : bytes) : auth * list resp :=
+Definition run_action (e : env) (a : core) (act : action) (args : bytes) : core * list resp :=
   match act with
   | A_HandleAuth => handle_auth e a args
   | A_SendError m => send_error a m
@@ -412,7 +410,7 @@ Definition run_action (e : env) (a : auth) (act : action) (args : bytes) : auth 
                        else send_error a m
   end.
 
-Definition handle (e : env) (a : auth) (c : cmd) (args : bytes) : auth * list resp :=
+Definition handle (e : env) (a : core) (c : cmd) (args : bytes) : core * list resp :=
   match a_state a with
   | WaitingForAuth => run_action e a (disp_waiting_for_auth c) args     (* handle_server_state_waiting_for_auth *)
   | WaitingForData => run_action e a (disp_waiting_for_data c) args     (* handle_server_state_waiting_for_data *)
@@ -421,7 +419,7 @@ Definition handle (e : env) (a : auth) (c : cmd) (args : bytes) : auth * list re
   end.
 
 (* ---------- process_command, on one complete line (without its CRLF) ---------- *)
-Definition process_line (e : env) (a : auth) (line : bytes) : auth * list resp :=
+Definition process_line (e : env) (a : core) (line : bytes) : core * list resp :=
   if negb (validate_ascii line) then send_error a msg_non_ascii
   else
     let '(_, i) := find_blank line in
@@ -430,17 +428,16 @@ Definition process_line (e : env) (a : auth) (line : bytes) : auth * list resp :
     | Some j => handle e a (lookup_command (firstn (N.to_nat i) line)) (skipn (N.to_nat j) line)
     end.
 
-Definition is_crashed (a : auth) : bool := sstate_eqb (a_state a) Crashed.
+Definition is_crashed (a : core) : bool := sstate_eqb (a_state a) Crashed.
 
 (* process_command with the position of the first CRLF already found *)
 Definition process_command (e : env) (a : auth) (eol : N) : auth :=
-  let '(a', rs) := process_line e a (firstn (N.to_nat eol) (a_incoming a)) in
-  if is_crashed a' then a'
-  else set_outgoing (set_incoming a' (skipn (N.to_nat eol + 2) (a_incoming a')))
-                    (a_outgoing a' ++ flat_map (render e) rs).
+  let '(c', rs) := process_line e (a_core a) (firstn (N.to_nat eol) (a_incoming a)) in
+  if is_crashed c' then mkAuth c' (a_incoming a) (a_outgoing a)
+  else mkAuth c' (skipn (N.to_nat eol + 2) (a_incoming a)) (a_outgoing a ++ flat_map (render e) rs).
 
 (* DBUS_AUTH_IN_END_STATE *)
-Definition in_end_state (a : auth) : bool :=
+Definition in_end_state (a : core) : bool :=
   match a_state a with Authenticated | NeedDisconnect | Crashed => true | _ => false end.
 
 (* the do/while loop of _dbus_auth_do_work; None = out of fuel (excluded by do_work_total) *)
@@ -448,9 +445,9 @@ Fixpoint work (e : env) (fuel : nat) (a : auth) : option auth :=
   match fuel with
   | O => None
   | S f =>
-      if in_end_state a then Some a
+      if in_end_state (a_core a) then Some a
       else if (MAX_BUFFER <? nlen (a_incoming a)) || (MAX_BUFFER <? nlen (a_outgoing a))
-      then Some (set_state a NeedDisconnect)
+      then Some (mkAuth (set_state (a_core a) NeedDisconnect) (a_incoming a) (a_outgoing a))
       else match find_crlf (a_incoming a) with
            | None => Some a
            | Some eol => work e f (process_command e a eol)
@@ -461,9 +458,9 @@ Definition do_work (e : env) (a : auth) : option auth := work e (S (length (a_in
 (* DBusAuthState returned by _dbus_auth_do_work (WAITING_FOR_MEMORY never, no OOM here) *)
 Inductive wstate := W_WaitingForInput | W_HaveBytesToSend | W_NeedDisconnect | W_Authenticated | W_Aborted.
 Definition work_result (a : auth) : wstate :=
-  if is_crashed a then W_Aborted
+  if is_crashed (a_core a) then W_Aborted
   else if negb (is_empty (a_outgoing a)) then W_HaveBytesToSend
-  else match a_state a with
+  else match a_state (a_core a) with
        | NeedDisconnect => W_NeedDisconnect
        | Authenticated => W_Authenticated
        | _ => W_WaitingForInput
@@ -473,10 +470,10 @@ Definition work_result (a : auth) : wstate :=
    report bytes written (_dbus_auth_bytes_sent), each followed by _dbus_auth_do_work *)
 Inductive event := Feed (chunk : bytes) | Sent (n : N).
 Definition step (e : env) (a : auth) (ev : event) : option auth :=
-  if is_crashed a then Some a
+  if is_crashed (a_core a) then Some a
   else match ev with
-       | Feed c => do_work e (set_incoming a (a_incoming a ++ c))
-       | Sent n => do_work e (set_outgoing a (skipn (N.to_nat n) (a_outgoing a)))
+       | Feed c => do_work e (mkAuth (a_core a) (a_incoming a ++ c) (a_outgoing a))
+       | Sent n => do_work e (mkAuth (a_core a) (a_incoming a) (skipn (N.to_nat n) (a_outgoing a)))
        end.
 Fixpoint run (e : env) (a : auth) (evs : list event) : option auth :=
   match evs with
@@ -485,5 +482,5 @@ Fixpoint run (e : env) (a : auth) (evs : list event) : option auth :=
   end.
 
 (* _dbus_auth_get_identity, _dbus_auth_get_unused_bytes *)
-Definition get_identity (a : auth) : creds := a_authorized a.
-Definition unused_bytes (a : auth) : option bytes := if in_end_state a then Some (a_incoming a) else None.
+Definition get_identity (a : auth) : creds := a_authorized (a_core a).
+Definition unused_bytes (a : auth) : option bytes := if in_end_state (a_core a) then Some (a_incoming a) else None.
